@@ -32,8 +32,11 @@ def _ops(draw, kind, d):
     ops = []
     for _ in range(draw(st.integers(1, 7))):
         if kind == "ensemble":
-            if draw(st.integers(0, 5)) == 0:
+            r_ = draw(st.integers(0, 7))
+            if r_ == 0:
                 ops.append(["restart"])
+            elif r_ == 1:
+                ops.append(["inspect", False])
             else:
                 ops.append(["advance", draw(st.sampled_from([0, 1, 1, 2, 3, 7]))])
             continue
@@ -200,9 +203,11 @@ def inspect_is_pure(V, h, stats, plots=False):
         calls.append(("get_marginal", lambda: ch.get_marginal(0, burn=0)))
     if hasattr(ch, "estimate_burn_in") and n >= 8:
         calls.append(("estimate_burn_in", lambda: ch.estimate_burn_in()))
-    if plots and n >= 12:
-        import matplotlib.pyplot as plt
+    import matplotlib.pyplot as plt
 
+    if h.kind == "ensemble" and n >= 1:
+        calls.append(("plot_diagnostics", lambda: ch.plot_diagnostics()))  # (no show argument; Agg backend)
+    if plots and n >= 12:
         if h.kind != "ensemble":
             calls.append(("plot_diagnostics", lambda: ch.plot_diagnostics(show=False)))
         calls.append(("trace_plot", lambda: ch.trace_plot(show=False)))
@@ -217,7 +222,7 @@ def inspect_is_pure(V, h, stats, plots=False):
         except Exception:  # noqa - whether a diagnostic works on this chain is not C03's business
             pass
         finally:
-            if plots and n >= 12:
+            if name in ("plot_diagnostics", "trace_plot", "matrix_plot"):
                 plt.close("all")
     stats["inspect_calls"] += len(done)
     after = fingerprint()
